@@ -34,7 +34,7 @@ def build_objects(domain, objects):
     return {n: PDDLObject(name=n, type=domain.types[t]) for n, t in objects}
 
 
-def build_state(domain, world, st, is_init=True, variants=False):
+def build_state(domain, world, st, is_init=True, variants=False, empty_groups=False):
     """Constructs a library State the way ProblemParser does (same keys, same object kinds).  variants=True
     additionally stores, for every fact with an argument whose own type is a strict subtype of the declared
     parameter type, the same fact annotated with the arguments' own types - what an add effect of an action whose
@@ -51,6 +51,10 @@ def build_state(domain, world, st, is_init=True, variants=False):
             if any(own[p].name != lifted.signature[p].name for p in own):
                 preds[lifted.untyped_representation].add(
                     GroundedPredicate(name=atom[0], signature=own, object_mapping=dict(mapping)))
+    if empty_groups:
+        # predicates without a fact keep an (empty) entry, as a delete effect that removed the last fact leaves it
+        for lifted in domain.predicates.values():
+            preds.setdefault(lifted.untyped_representation, set())
     fluents = {}
     for key in sorted(st[1]):
         v = st[1][key]
